@@ -125,6 +125,10 @@ enum Scn {
     /// whose scalers are switched off), generated procedurally from `seed`; parsed whole and in
     /// `pieces` seeded pieces. A scaler block follows the run when `scaler_at_end`.
     LongRun { n_entries: u64, seed: u64, pieces: u32, scaler_at_end: bool },
+    /// ONE slice of more than 4 GiB (a board's whole FIFO history of a long run, buffered at once):
+    /// `prefix` entries, one scaler block, then zeros up to `2^32 + tail` bytes counted from the
+    /// start of the block. The buffer is lazily zero-mapped; only its head is ever touched.
+    HugeSlice { prefix: u32, tail: u32 },
 }
 
 /// Resume protocol of the consumer (as documented in the chronobox module and used by
@@ -228,6 +232,9 @@ impl Check for C07Check {
             // all 2^24 words with top byte 0xFE, in context, 256 slices
             let lo = 0xFE00_0000u64 + (k << 16);
             return serde_json::to_value(Scn::Sweep { lo, hi: lo + (1 << 16), step: 1, context: true }).unwrap();
+        }
+        if index % 997 == 313 {
+            return serde_json::to_value(Scn::HugeSlice { prefix: r.usize(0, 40) as u32, tail: *r.pick(&[0u32, 4, 8, 120, 240, 244, 248, 4096]) }).unwrap();
         }
         if index % 499 == 77 {
             // (one or two per quick run, a hundred per thorough run)
@@ -427,6 +434,60 @@ fn run_on_caller_stack(scenario: &Value, stats: &mut Stats) -> Outcome {
         let mut viol: Vec<Violation> = Vec::new();
         let mut log = H64::new();
         match scn {
+            Scn::HugeSlice { prefix, tail } => {
+                let head: Vec<u8> = {
+                    let mut e: Vec<Elem> = (0..prefix).map(|i| Elem::Ts { ch: (i % 59) as u8, t24: i * 5 + 1 }).collect();
+                    e.push(Elem::Scaler { seed: prefix as u64 * 77 + tail as u64 });
+                    encode_elems(&e)
+                };
+                let block_at = prefix as usize * 4;
+                let total = block_at + (1usize << 32) + tail as usize;
+                log.u64(prefix as u64).u64(tail as u64);
+                let got = simcore::driver::with_address_space(Some(4096), 12 * 1024, || {
+                    // zeroed allocation straight from the allocator (calloc -> fresh zero pages that are
+                    // never touched); if the machine cannot map that much, the scenario is skipped -
+                    // an environment limit of the harness, not a finding
+                    let layout = std::alloc::Layout::from_size_align(total, 8).expect("layout");
+                    // SAFETY: layout has non-zero size; the pointer is checked, used as a byte slice of
+                    // exactly that size and freed with the same layout
+                    let ptr = unsafe { std::alloc::alloc_zeroed(layout) };
+                    if ptr.is_null() {
+                        return None;
+                    }
+                    let buf: &mut [u8] = unsafe { std::slice::from_raw_parts_mut(ptr, total) };
+                    buf[..head.len()].copy_from_slice(&head);
+                    let mut slice: &[u8] = &buf[..];
+                    stats.executions += 1;
+                    let r = catch(|| {
+                        let e = chronobox_fifo(&mut slice);
+                        (e.iter().map(view).collect::<Vec<RefEntry>>(), slice.len())
+                    });
+                    unsafe { std::alloc::dealloc(ptr, layout) };
+                    Some(r)
+                });
+                let Some(got) = got else {
+                    stats.probe("single_slice_larger_than_4GiB_not_mappable_here");
+                    return Outcome { log_hash: log.finish(), nontrivial: false, violations: viol };
+                };
+                stats.probe("single_slice_larger_than_4GiB");
+                // reference: the head is prefix entries + one complete block; the zero word behind it is
+                // no entry
+                let (want, _) = reference_parse(&head);
+                match got {
+                    Err(p) => viol.push(Violation { invariant: "C07.no-panic".into(), signature: format!("panic:{}:hugeslice", panic_site(&p)), detail: p, narrowed: None }),
+                    Ok((entries, rest)) => {
+                        if entries != want || rest != total - head.len() {
+                            viol.push(Violation {
+                                invariant: "C07.I1-differs-from-reference".into(),
+                                signature: "whole:hugeslice".into(),
+                                detail: format!("slice of {total} bytes: {} entries / {} bytes consumed, reference {} entries / {} bytes", entries.len(), total - rest, want.len(), head.len()),
+                                narrowed: None,
+                            });
+                        }
+                    }
+                }
+                return Outcome { log_hash: log.finish(), nontrivial: true, violations: viol };
+            }
             Scn::LongRun { n_entries, seed, pieces, scaler_at_end } => {
                 let word_of = |i: u64| -> u32 {
                     let x = simcore::mix(seed, i);
